@@ -190,7 +190,8 @@ class FlatGen:
         r = self.r
         if not self.vectors and not self.matrices:
             return self.eq_scalar()
-        style = r.choice(["vec", "vec", "shift", "idxarith", "matcol", "matrow", "der", "reverse", "stride", "twoshifts"])
+        style = r.choice(["vec", "vec", "shift", "idxarith", "matcol", "matrow", "der", "reverse", "stride", "twoshifts",
+                          "callshifts", "prodidx"])
         n = self.vlen
         i = r.choice("ijk")
         if style in ("vec", "der") and self.vectors:
@@ -227,6 +228,28 @@ class FlatGen:
             self.note_ops(g)
             self.m["eqs"].append(("for", i, num(2), None, num(n - 1), [("eq", idx(v, var(i)), rhs)]))
             self.tags.add("core:for-two-computed-subscripts-of-one-array")
+        elif style == "callshifts" and self.vectors and n >= 2:
+            # the same user function called twice in one loop body on elements of one array at different offsets
+            v = r.choice(self.vectors)
+            w = r.choice(self.vectors)
+            self.nfun += 1
+            fname = "g%d" % self.nfun
+            c1, c2 = r.randint(2, 5), r.randint(1, 4)
+            self.m["funcs"].append({"name": fname, "inputs": [("a1", [])], "outputs": [("o1", [])], "protected": [],
+                                    "stmts": [("assign", var("o1"), ("bin", "+", ("bin", "*", num(c1), ("bin", "*", var("a1"), var("a1"))), num(c2)))]})
+            rhs = ("bin", "-", ("call", fname, [idx(w, ("bin", "-", var(i), num(1)))]), ("call", fname, [idx(w, var(i))]))
+            self.m["eqs"].append(("for", i, num(2), None, num(n), [("eq", idx(v, var(i)), rhs)]))
+            self.tags.add("core:for-same-function-at-two-offsets")
+        elif style == "prodidx" and self.vectors and n >= 3:
+            # a subscript that is a product of two loop-index factors: i * (i - 1) + 1 is 1, 3 (and 7)
+            v = r.choice(self.vectors)
+            w = r.choice(self.vectors)
+            hi = 3 if n >= 7 else 2
+            sub = ("bin", "+", ("bin", "*", var(i), ("bin", "-", var(i), num(1))), num(1))
+            g = self.gen(i, None)
+            self.m["eqs"].append(("for", i, num(1), None, num(hi), [("eq", idx(v, var(i)), ("bin", "+", ("bin", "*", num(2), idx(w, sub)), g.real(0)))]))
+            self.note_ops(g)
+            self.tags.add("core:for-subscript-product-of-index-factors")
         elif style == "idxarith" and self.vectors and n >= 3:
             v = r.choice(self.vectors)
             half = n // 2
